@@ -31,10 +31,12 @@ type Def struct {
 }
 
 type Fld struct {
-	ID    int    `json:"id"`
-	Name  string `json:"name"`
-	Alias string `json:"alias,omitempty"`
-	Body  string `json:"body,omitempty"` // api.body annotation (changes the alias only at the root of a request / response, under ApiBodyFastPath)
+	ID      int    `json:"id"`
+	Name    string `json:"name"`
+	Alias   string `json:"alias,omitempty"`
+	Body    string `json:"body,omitempty"`     // api.body annotation (changes the alias only at the root of a request / response, under ApiBodyFastPath)
+	Tag     string `json:"tag,omitempty"`      // go.tag = 'json:"<Tag>"' next to an explicit api.key (which is the declared alias, wherever it is written)
+	KeyLast bool   `json:"key_last,omitempty"` // api.key is written after the other annotations
 	// RootBase: a base.Base / base.BaseResp field of a struct that only ever is the root of a request / response:
 	// under EnableThriftBase its requires bit is cleared (the base travels through the context), everything else stays as declared
 	RootBase bool   `json:"root_base,omitempty"`
@@ -211,6 +213,11 @@ func (fc *fileCtx) genFields(t *rapid.T, n int, mode int, enums map[string][]enu
 			if !usedA[a] {
 				usedA[a] = true
 				f.Alias = a
+				// the explicit api.key is the declared alias, also next to a go.tag that would yield another key and wherever it is written
+				if rapid.IntRange(0, 2).Draw(t, "withTag") == 0 {
+					f.Tag = fmt.Sprintf("t_%s%d", nameParts[rapid.IntRange(0, len(nameParts)-1).Draw(t, "tagPart")], i)
+				}
+				f.KeyLast = rapid.Bool().Draw(t, "keyLast")
 			}
 		}
 		constKind := ""
@@ -306,13 +313,22 @@ func renderFields(b *strings.Builder, fs []Fld) {
 				fmt.Fprintf(b, " = %s", f.Def.S)
 			}
 		}
-		switch {
-		case f.Alias != "" && f.Body != "":
-			fmt.Fprintf(b, " (api.key = %q, api.body = %q)", f.Alias, f.Body)
-		case f.Alias != "":
-			fmt.Fprintf(b, " (api.key = %q)", f.Alias)
-		case f.Body != "":
-			fmt.Fprintf(b, " (api.body = %q)", f.Body)
+		var annos []string
+		if f.Body != "" {
+			annos = append(annos, fmt.Sprintf("api.body = %q", f.Body))
+		}
+		if f.Tag != "" {
+			annos = append(annos, fmt.Sprintf("go.tag = 'json:\"%s\"'", f.Tag))
+		}
+		if f.Alias != "" {
+			if f.KeyLast {
+				annos = append(annos, fmt.Sprintf("api.key = %q", f.Alias))
+			} else {
+				annos = append([]string{fmt.Sprintf("api.key = %q", f.Alias)}, annos...)
+			}
+		}
+		if len(annos) > 0 {
+			fmt.Fprintf(b, " (%s)", strings.Join(annos, ", "))
 		}
 		b.WriteString(",\n")
 	}
@@ -486,7 +502,7 @@ func GenModel(t *rapid.T) *Model {
 		s := &Str{Full: "main.Elem", Kind: "struct"}
 		fs := mc.genFields(t, rapid.IntRange(1, 4).Draw(t, "nElem"), 0, mainEnums)
 		for i := range fs {
-			fs[i].Alias = ""
+			fs[i].Alias, fs[i].Tag = "", ""
 			fs[i].Body = "b_" + fs[i].Name
 		}
 		s.Fields = fs
